@@ -294,3 +294,96 @@ fn verif_c02_tamper_sweep() {
     }
     rec.finish();
 }
+
+/// Coordinated two-message attack on the pseudonym computation inside a complete query: the corrupt helper adds
+/// +d / -d to two lanes of the first vectorised record of its PRF multiplication message and the same offsets to the
+/// share it sends when the product is opened. A MAC that does not bind every lane separately accepts this and the
+/// query returns a different histogram. Oracle as for single faults: abort, or unchanged result.
+#[test]
+fn verif_c02_cross_lane_prf_attack() {
+    use crate::ff::{Serializable, ec_prime_field::Fp25519};
+    let env = vlib::env();
+    let mut rec = Recorder::new("C02", "verif_c02_cross_lane_prf_attack");
+    let n = env.pick(6, 24);
+    for idx in 0..n {
+        if !env.mine(idx) {
+            continue;
+        }
+        let mut r = VRng::new(env.seed ^ 0x1a2e, idx as u64);
+        let attacker = idx % 3;
+        let shards = 1 + (idx / 3) % 2;
+        // every row belongs to a pair, so two corrupted pseudonyms always change the histogram if accepted
+        let mut reports = Vec::new();
+        for k in 0..(if shards == 1 { 8 } else { 34 }) {
+            reports.push(Rep::Imp { mk: 300 + k, bk: 1 + r.below(200) as u8 });
+            reports.push(Rep::Conv { mk: 300 + k, v: 1 + r.below(7) as u8 });
+        }
+        r.shuffle(&mut reports);
+        let case = HybridCase {
+            assign: (0..reports.len()).map(|i| i % shards).collect(),
+            reports,
+            shards,
+            malicious: true,
+            padding: false,
+            hv_bits: 32,
+            world_seed: env.seed.wrapping_mul(733) + idx as u64,
+            exec: Exec::Paused,
+        };
+        let expected = wl::reference_histogram(&case.reports, 32);
+        let (l0, l1) = (r.below(16) as usize, 0usize);
+        let l1 = (l0 + 1 + r.below(15) as usize + l1) % 16;
+        let hits = Arc::new(Mutex::new((0u32, 0u32)));
+        let h2 = Arc::clone(&hits);
+        let interceptor: crate::helpers::in_memory_config::DynStreamInterceptor =
+            Arc::new(move |ctx: &crate::helpers::in_memory_config::InspectContext, data: &mut Vec<u8>| {
+                if let crate::helpers::in_memory_config::InspectContext::MpcMessage { source, dest, gate, shard } = ctx {
+                    let ids = [crate::helpers::HelperIdentity::ONE, crate::helpers::HelperIdentity::TWO, crate::helpers::HelperIdentity::THREE];
+                    let src = ids.iter().position(|i| i == source).unwrap();
+                    let dst = ids.iter().position(|i| i == dest).unwrap();
+                    let on_shard0 = shard.map(u32::from).unwrap_or(0) == 0;
+                    let g = gate.as_ref();
+                    let mult = g.ends_with("mult_mask_with_p_r_f_input") && dst == (attacker + 2) % 3;
+                    let reveal = g.ends_with("revealz") && dst == (attacker + 1) % 3;
+                    let mut h = h2.lock().unwrap();
+                    let first = if mult { h.0 == 0 } else { h.1 == 0 };
+                    if src == attacker && on_shard0 && (mult || reveal) && first && data.len() >= 32 * 16 {
+                        let d = Fp25519::from(0x0dd_ba11_u64);
+                        for (lane, plus) in [(l0, true), (l1, false)] {
+                            let sl = &mut data[32 * lane..32 * (lane + 1)];
+                            let v = Fp25519::deserialize_infallible(generic_array::GenericArray::from_slice(sl));
+                            let v = if plus { v + d } else { v - d };
+                            let mut buf = generic_array::GenericArray::default();
+                            v.serialize(&mut buf);
+                            sl.copy_from_slice(&buf);
+                        }
+                        if mult { h.0 += 1 } else { h.1 += 1 }
+                    }
+                }
+            });
+        let run = wl::run_hybrid(&case, Some(interceptor));
+        let (hm, hr) = *hits.lock().unwrap();
+        if hm == 0 {
+            rec.inconclusive(format!("case {idx}: the PRF multiplication message was never seen"));
+            continue;
+        }
+        rec.eval();
+        rec.seen("lane_attack_messages_hit", format!("mult{hm}/reveal{hr}"));
+        if !honest_all_ok(&run, attacker) {
+            rec.count(abort_class(&run, attacker));
+            rec.count("lane_attack_aborted");
+            rec.distinct(&("lane", attacker, shards, l0, l1));
+            continue;
+        }
+        match honest_value(&run, attacker) {
+            Ok(v) if v == expected => rec.count("accepted-correct"),
+            other => rec.violation(
+                "a coordinated cross-lane alteration of the pseudonym multiplication and opening was accepted and changed the result",
+                json!({"kind": "accepted_wrong", "attack": "cross_lane_prf", "multi_shard": shards > 1}),
+                json!({"case": idx, "hybrid_case": case.to_json(), "attacker": attacker, "lanes": [l0, l1],
+                       "honest_value": format!("{other:?}").chars().take(200).collect::<String>()}),
+            ),
+        }
+    }
+    rec.sample(json!({"attack": "+d/-d on two lanes of the PRF multiplication message and of the opened share", "lanes": 16}));
+    rec.finish();
+}
